@@ -12,6 +12,8 @@ import GqlVerif.Proofs.C01DenyFragWitness
 import GqlVerif.Proofs.C01MixedE
 import GqlVerif.Proofs.C01MixedF
 import GqlVerif.Proofs.C01MixedG
+import GqlVerif.Proofs.ModuleOkInputsMore
+import GqlVerif.Proofs.ModuleOkInputsClasses
 open GqlVerif.C03
 #print axioms ok_iff_accepts
 #print axioms null_at_non_null_rejected
@@ -83,3 +85,12 @@ open GqlVerif.C03
 #print axioms GqlVerif.C01M.mixed_precise
 #print axioms GqlVerif.C01M.mixed2_precise_iff
 #print axioms GqlVerif.C01M.mx_precise
+-- exact acceptance with the side condition on the INPUT (Proofs/ModuleOkInputs*.lean, P42)
+#print axioms GqlVerif.MOK.moduleOk_iff_inputs
+#print axioms GqlVerif.MOK.tree_precise_iff_inputs
+#print axioms GqlVerif.MOK.variant_precise_iff_inputs
+#print axioms GqlVerif.MOK.fragment_precise_iff_inputs
+#print axioms GqlVerif.MOK.mixed_precise_iff_inputs
+#print axioms GqlVerif.MOK.variantspread_precise_iff_inputs
+#print axioms GqlVerif.MOK.recfragment_precise_iff_inputs
+#print axioms GqlVerif.MOK.variantspread2_precise_iff_inputs
